@@ -171,6 +171,12 @@ class Unpicklable:
     def __reduce__(self):
         raise WontPickle('this value cannot be serialised')
 
+    def __copy__(self):
+        return self            # (CrossHair's contract enforcement copies arguments)
+
+    def __deepcopy__(self, memo):
+        return self
+
 
 class Counter:
     def __init__(self, v=0):
